@@ -663,109 +663,7 @@ func extra11C15(c *Ctx) {
 func extra11C07(c *Ctx) {
 	rule := "C07-R23"
 	c.Rule(rule, "a wrapper resumes only where every wrapped cache can: WrapperCache.CanResume returns constants, its `false` is on the false edge of a wrapped cache's CanResume inside the loop over c.caches, and `true` is returned only outside that loop — with `any` in place of `all` the full causal cache of a gemma-style pair always answers yes and the sliding-window cache is resumed behind its window")
-	f := c.Fn(rule, "kvcache", "WrapperCache.CanResume")
-	if f == nil {
-		return
-	}
-	info := f.Info()
-	g := c.G(f)
-	type loopT struct{ Stmt ast.Stmt }
-	var loop *loopT
-	ast.Inspect(f.Body, func(nd ast.Node) bool {
-		switch x := nd.(type) {
-		case *ast.RangeStmt:
-			if mentionsSel(x.X, "caches") && loop == nil {
-				loop = &loopT{x}
-			}
-		case *ast.ForStmt:
-			if x.Cond != nil && mentionsSel(x.Cond, "caches") && loop == nil {
-				loop = &loopT{x}
-			}
-		}
-		return true
-	})
-	if loop == nil {
-		c.Check(rule, f.Key()+" asks every wrapped cache", c.Pos(f.Decl), false, "no loop over the wrapped caches: the answer is not the conjunction of theirs (accepted form: loop, return false on the first refusal, return true after it)")
-		return
-	}
-	// the accumulator spelling: `ok := true; for i := 0; ok && i < len(c.caches); i++ { ok = c.caches[i].CanResume(..) }; return ok`
-	if fs, isFor := loop.Stmt.(*ast.ForStmt); isFor {
-		rets := g.Returns()
-		if len(rets) == 1 && len(rets[0].Return.Results) == 1 && !within(loop.Stmt, rets[0].Return) {
-			if id, isId := ast.Unparen(rets[0].Return.Results[0]).(*ast.Ident); isId {
-				acc := info.Uses[id]
-				initTrue, stepsOK, nSteps := false, true, 0
-				ast.Inspect(f.Body, func(nd ast.Node) bool {
-					as, isAs := nd.(*ast.AssignStmt)
-					if !isAs || len(as.Lhs) != 1 || len(as.Rhs) != 1 {
-						return true
-					}
-					lid, isL := as.Lhs[0].(*ast.Ident)
-					if !isL || info.ObjectOf(lid) != acc {
-						return true
-					}
-					if tv, has := info.Types[as.Rhs[0]]; has && tv.Value != nil {
-						if tv.Value.String() == "true" && !within(loop.Stmt, as) {
-							initTrue = true
-						} else {
-							stepsOK = false
-						}
-						return true
-					}
-					rhs := ast.Unparen(as.Rhs[0])
-					if be, isB := rhs.(*ast.BinaryExpr); isB && be.Op == token.LAND && isIdentOf(info, be.X, acc) {
-						rhs = ast.Unparen(be.Y)
-					} else {
-						// a plain store needs the loop to stop at the first false
-						stops := false
-						for _, cj := range conjunctsOf(info, f.Body, fs.Cond, true) {
-							if cj.Val && isIdentOf(info, cj.Expr, acc) {
-								stops = true
-							}
-						}
-						if !stops {
-							stepsOK = false
-						}
-					}
-					if call, isC := rhs.(*ast.CallExpr); isC && strings.HasSuffix(core.CalleeName(info, call), ".CanResume") && within(loop.Stmt, as) {
-						nSteps++
-					} else {
-						stepsOK = false
-					}
-					return true
-				})
-				if acc != nil && initTrue && stepsOK && nSteps == 1 {
-					c.Check(rule, f.Key()+" conjunction kept in an accumulator", c.Pos(loop.Stmt), true, "")
-					return
-				}
-			}
-		}
-	}
-	sawFalse := false
-	for _, ex := range g.Returns() {
-		if len(ex.Return.Results) != 1 {
-			continue
-		}
-		tv, has := info.Types[ex.Return.Results[0]]
-		if !has || tv.Value == nil {
-			c.Check(rule, f.Key()+" returns a constant", c.Pos(ex.Return), false, "the result is computed by `"+core.ExprString(ex.Return.Results[0])+"`; accepted form: return false on the first refusal, true after the loop")
-			continue
-		}
-		if tv.Value.String() == "true" {
-			c.Check(rule, f.Key()+" says yes only after the loop", c.Pos(ex.Return), !within(loop.Stmt, ex.Return), "`return true` inside the loop: one willing cache answers for all")
-			continue
-		}
-		okEdge := false
-		for _, a := range g.AtomsAt(ex.Loc) {
-			if call, isC := ast.Unparen(a.Expr).(*ast.CallExpr); isC && !a.Val && strings.HasSuffix(core.CalleeName(info, call), ".CanResume") {
-				okEdge = true
-			}
-		}
-		if okEdge && within(loop.Stmt, ex.Return) {
-			sawFalse = true
-		}
-	}
-	c.Check(rule, f.Key()+" refuses on the first refusal", c.Pos(loop.Stmt), sawFalse, "no `return false` on the false edge of a wrapped cache's CanResume inside the loop")
+	ruleWrapperConjunction(c, rule)
 
 	rule = "C07-R24"
 	c.Rule(rule, "a token that follows several images is given each of them and a hash of all of them: in mllama's PostTokenize the loop whose index is bounded by the length of the collected images indexes only that list with it, and reads no fixed element of the list in its body — `images[0]` there hands the first image over again and again, and `inputs[j]` hashes an unrelated input, so two prompts that differ in a later image share a MultimodalHash and the cached prefix of one is reused for the other")
@@ -1458,4 +1356,111 @@ func factsAt(info *types.Info, body ast.Node, g *core.Graph, loc core.Loc) []str
 		out = append(out, conjunctsOf(info, body, a.Expr, a.Val)...)
 	}
 	return out
+}
+
+// ruleWrapperConjunction judges WrapperCache.CanResume (shared by C07-R23 and C06-R5).
+func ruleWrapperConjunction(c *Ctx, rule string) {
+	f := c.Fn(rule, "kvcache", "WrapperCache.CanResume")
+	if f == nil {
+		return
+	}
+	info := f.Info()
+	g := c.G(f)
+	type loopT struct{ Stmt ast.Stmt }
+	var loop *loopT
+	ast.Inspect(f.Body, func(nd ast.Node) bool {
+		switch x := nd.(type) {
+		case *ast.RangeStmt:
+			if mentionsSel(x.X, "caches") && loop == nil {
+				loop = &loopT{x}
+			}
+		case *ast.ForStmt:
+			if x.Cond != nil && mentionsSel(x.Cond, "caches") && loop == nil {
+				loop = &loopT{x}
+			}
+		}
+		return true
+	})
+	if loop == nil {
+		c.Check(rule, f.Key()+" asks every wrapped cache", c.Pos(f.Decl), false, "no loop over the wrapped caches: the answer is not the conjunction of theirs (accepted form: loop, return false on the first refusal, return true after it)")
+		return
+	}
+	// the accumulator spelling: `ok := true; for i := 0; ok && i < len(c.caches); i++ { ok = c.caches[i].CanResume(..) }; return ok`
+	if fs, isFor := loop.Stmt.(*ast.ForStmt); isFor {
+		rets := g.Returns()
+		if len(rets) == 1 && len(rets[0].Return.Results) == 1 && !within(loop.Stmt, rets[0].Return) {
+			if id, isId := ast.Unparen(rets[0].Return.Results[0]).(*ast.Ident); isId {
+				acc := info.Uses[id]
+				initTrue, stepsOK, nSteps := false, true, 0
+				ast.Inspect(f.Body, func(nd ast.Node) bool {
+					as, isAs := nd.(*ast.AssignStmt)
+					if !isAs || len(as.Lhs) != 1 || len(as.Rhs) != 1 {
+						return true
+					}
+					lid, isL := as.Lhs[0].(*ast.Ident)
+					if !isL || info.ObjectOf(lid) != acc {
+						return true
+					}
+					if tv, has := info.Types[as.Rhs[0]]; has && tv.Value != nil {
+						if tv.Value.String() == "true" && !within(loop.Stmt, as) {
+							initTrue = true
+						} else {
+							stepsOK = false
+						}
+						return true
+					}
+					rhs := ast.Unparen(as.Rhs[0])
+					if be, isB := rhs.(*ast.BinaryExpr); isB && be.Op == token.LAND && isIdentOf(info, be.X, acc) {
+						rhs = ast.Unparen(be.Y)
+					} else {
+						// a plain store needs the loop to stop at the first false
+						stops := false
+						for _, cj := range conjunctsOf(info, f.Body, fs.Cond, true) {
+							if cj.Val && isIdentOf(info, cj.Expr, acc) {
+								stops = true
+							}
+						}
+						if !stops {
+							stepsOK = false
+						}
+					}
+					if call, isC := rhs.(*ast.CallExpr); isC && strings.HasSuffix(core.CalleeName(info, call), ".CanResume") && within(loop.Stmt, as) {
+						nSteps++
+					} else {
+						stepsOK = false
+					}
+					return true
+				})
+				if acc != nil && initTrue && stepsOK && nSteps == 1 {
+					c.Check(rule, f.Key()+" conjunction kept in an accumulator", c.Pos(loop.Stmt), true, "")
+					return
+				}
+			}
+		}
+	}
+	sawFalse := false
+	for _, ex := range g.Returns() {
+		if len(ex.Return.Results) != 1 {
+			continue
+		}
+		tv, has := info.Types[ex.Return.Results[0]]
+		if !has || tv.Value == nil {
+			c.Check(rule, f.Key()+" returns a constant", c.Pos(ex.Return), false, "the result is computed by `"+core.ExprString(ex.Return.Results[0])+"`; accepted form: return false on the first refusal, true after the loop")
+			continue
+		}
+		if tv.Value.String() == "true" {
+			c.Check(rule, f.Key()+" says yes only after the loop", c.Pos(ex.Return), !within(loop.Stmt, ex.Return), "`return true` inside the loop: one willing cache answers for all")
+			continue
+		}
+		okEdge := false
+		for _, a := range g.AtomsAt(ex.Loc) {
+			if call, isC := ast.Unparen(a.Expr).(*ast.CallExpr); isC && !a.Val && strings.HasSuffix(core.CalleeName(info, call), ".CanResume") {
+				okEdge = true
+			}
+		}
+		if okEdge && within(loop.Stmt, ex.Return) {
+			sawFalse = true
+		}
+	}
+	c.Check(rule, f.Key()+" refuses on the first refusal", c.Pos(loop.Stmt), sawFalse, "no `return false` on the false edge of a wrapped cache's CanResume inside the loop")
 }
